@@ -8,8 +8,8 @@ Mirrors (all paths relative to `/repo`)
 * `src/geometry/Pose3D.cpp:35-64`                      `toPose2D`, `toPosition3D`
 * `src/geometry/Twist3D.cpp:33-47`                     `toTwist2D`
 * `src/geometry/PoseAndTwist3D.cpp:31-45`              `toPoseAndTwist2D`
-* `src/geometry/Pose3D.cpp:67-74,115-117`              `operator*(Affine3d, Pose3D)`: position and orientation
-   (the covariance part, lines 75-113 and 118, is modelled in `RomeaModel/Derivatives.lean`, C12)
+* `src/geometry/Pose3D.cpp:67-74,119-121`              `operator*(Affine3d, Pose3D)`: position and orientation
+   (the covariance part, lines 75-117 and 122, is modelled in `RomeaModel/Derivatives.lean`, C12)
 * `include/romea_core_common/math/EulerAngles.hpp:39-45,83-91`  `between0And2Pi`, `rotation3DToEulerAngles`
 * `src/transform/SmartRotation3D.cpp:57-90`            `SmartRotation3D::init`, the part computing `R_`
 * `src/geometry/Ellipse.cpp:54-71`, `src/geometry/Pose2D.cpp:35-43`, `src/geometry/Position2D.cpp:61-69`
@@ -225,7 +225,7 @@ def smartR (angles : Vec 3 α) : Tab 3 3 α :=
   let rzy := tab (mul3 (rotZ cosz sinz) (rotY cosy siny))
   tab (mul3 rzy.get (rotX cosx sinx))
 
-/-- `operator*(Affine3d, Pose3D)`, position and orientation (Pose3D.cpp:67-74, 115-117).
+/-- `operator*(Affine3d, Pose3D)`, position and orientation (Pose3D.cpp:67-74, 119-121).
     `lin`, `trans`: linear part and translation of the affine transform.
     `cov` is left to the caller (C12 models it); C11 is about the mean. -/
 def poseMulMean (rotOf : Mat 3 3 α → Mat 3 3 α) (lin : Mat 3 3 α) (trans : Vec 3 α)
@@ -234,8 +234,8 @@ def poseMulMean (rotOf : Mat 3 3 α → Mat 3 3 α) (lin : Mat 3 3 α) (trans : 
   let R := tab (rotOf lin)                                      -- :71  affine.rotation()
   let rotation := tab (mul3 R.get sR.get)                       -- :73
   let Rp := vtab (mulVec3 R.get position)
-  let pos := vtab (fun i => Rp.get i + trans i)                 -- :116 R * position + T
-  let ori := vtab (rotation3DToEulerAngles rotation.get)        -- :117
+  let pos := vtab (fun i => Rp.get i + trans i)                 -- :120 R * position + T
+  let ori := vtab (rotation3DToEulerAngles rotation.get)        -- :121
   (pos, ori)
 end
 
